@@ -99,6 +99,9 @@ func GoRand(r *prng.R, dst reflect.Value, tg string, depth int) bool {
 	if depth > 12 {
 		return false
 	}
+	if g, ok := leafGens[t]; ok {
+		return g(r, dst, depth)
+	}
 	if d := describeCached(t, tg); d.K != KOpaque {
 		var vs []string
 		d.Voids(&vs)
